@@ -217,7 +217,7 @@ func (e *kvElection) heartbeatLoop(ctx context.Context) {
 func (e *kvElection) handleHeartbeatFailure(err error) {
 	log := e.getLogger()
 	log.Error("demoting_due_to_heartbeat_failure",
-		append(e.logWithContext(e.ctx),
+		append(e.logWithContext(e.runContext()),
 			zap.Error(err),
 			zap.String("error_type", classifyErrorType(err)),
 		)...,
@@ -230,7 +230,7 @@ func (e *kvElection) handleHealthCheckFailure() {
 	log := e.getLogger()
 	failureCount := e.healthFailureCount.Load()
 	log.Error("demoting_due_to_health_check_failure",
-		append(e.logWithContext(e.ctx),
+		append(e.logWithContext(e.runContext()),
 			zap.Int32("failure_count", failureCount),
 		)...,
 	)
